@@ -255,7 +255,27 @@ func (c *FnCtx) frameCheckLoc(l location, what string) {
 	c.check(fmt.Sprintf("frame:%d", c.ordinal("frame")), what+" target permitted by modifies clause", or(okc...))
 }
 
+// frameCoversWhole: clause m covers the whole heap array of location l (heap(T.f) or pkgheap).
+func (c *FnCtx) frameCoversWhole(env *Env, m Clause, l location) bool {
+	call, ok := m.E.(*ECall)
+	if !ok {
+		return false
+	}
+	id, ok := call.Fun.(*EIdent)
+	if !ok || (id.Name != "heap" && id.Name != "pkgheap") {
+		return false
+	}
+	return c.frameCovers(env, m, l, l.a1) == "true"
+}
+
 func (c *FnCtx) frameCovers(env *Env, m Clause, l location, addr string) (res string) {
+	if m.Pkg != "" {
+		if p := c.g.typesPkgs[m.Pkg]; p != nil && p != env.pkg {
+			ne := *env
+			ne.pkg = p
+			env = &ne
+		}
+	}
 	defer func() {
 		if r := recover(); r != nil {
 			if se, ok := r.(specErr); ok {
